@@ -7,9 +7,10 @@ import EcModel.Lemmas.EepromBasic
 namespace Ec.Eeprom
 open Ec
 
-/-- The arithmetic sites of the translated code at which a `u16` overflow is possible. -/
-def knownSites : List String :=
-  ["new:mul", "new:add", "skip_ahead_bytes:add", "read_byte:add"]
+/-- The arithmetic sites of the translated code at which a `u16` overflow is still possible: none. (Before the
+    repairs in /repo this list had eight entries: `category:add`, `category:mul`, `new:mul`, `new:add`,
+    `size:add`, `size:mul`, `skip_ahead_bytes:add`, `read_byte:add`.) -/
+def knownSites : List String := []
 
 /-- Panic sites that can fire in a build mode: the overflow sites with overflow checks, none without. -/
 def sites : Mode → List String
@@ -99,24 +100,6 @@ end Tri
 
 /-! ### arithmetic -/
 
-theorem add16_tri (m : Mode) (hang : Bool) (s : String) (hs : s ∈ knownSites) (a b : Nat) :
-    Tri (sites m) hang 0 (fun v => v < 65536 ∧ (m = .checked → v = a + b)) (add16 m s a b) := by
-  unfold add16
-  split
-  · exact Tri.ret 0 ⟨by assumption, fun _ => rfl⟩
-  · cases m with
-    | checked => exact Tri.panicAt 0 s hs
-    | wrapping => exact Tri.ret 0 ⟨Nat.mod_lt _ (by omega), fun h => by cases h⟩
-
-theorem mul16_tri (m : Mode) (hang : Bool) (s : String) (hs : s ∈ knownSites) (a b : Nat) :
-    Tri (sites m) hang 0 (fun v => v < 65536 ∧ (m = .checked → v = a * b)) (mul16 m s a b) := by
-  unfold mul16
-  split
-  · exact Tri.ret 0 ⟨by assumption, fun _ => rfl⟩
-  · cases m with
-    | checked => exact Tri.panicAt 0 s hs
-    | wrapping => exact Tri.ret 0 ⟨Nat.mod_lt _ (by omega), fun h => by cases h⟩
-
 /-- A sum that provably fits never panics, in any mode, whatever the site. -/
 theorem add16_small {K : List String} {hang : Bool} (m : Mode) (s : String) (a b : Nat) (h : a + b < 65536) :
     Tri K hang 0 (fun v => v = a + b) (add16 m s a b) := by
@@ -124,59 +107,50 @@ theorem add16_small {K : List String} {hang : Bool} (m : Mode) (s : String) (a b
 
 /-! ### `EepromRange` -/
 
-/-- Both fields are `u16` values. -/
-def Range.WF (r : Range) : Prop := r.pos < 65536 ∧ r.endp < 65536
+/-- Cursor and end lie inside the SII address space (2^17 bytes): the invariant that keeps the `u32` cursor
+    arithmetic of the code exact. -/
+def Range.WF (r : Range) : Prop := r.pos ≤ 131072 ∧ r.endp ≤ 131072
 
-theorem new_tri (m : Mode) (hang : Bool) (w n : Nat) :
-    Tri (sites m) hang 0 (fun r => r.WF ∧ (m = .checked → r.pos = w * 2 ∧ r.endp = w * 2 + n * 2))
-      (Range.new m w n) := by
+theorem new_tri {K : List String} (m : Mode) (hang : Bool) (w n : Nat) (hw : w < 65536) :
+    Tri K hang 0 (fun r => r.WF) (Range.new m w n) := by
   unfold Range.new
-  have h := Tri.bind (mul16_tri m hang "new:mul" (by decide) w 2) (Q := fun r : Range =>
-      r.WF ∧ (m = .checked → r.pos = w * 2 ∧ r.endp = w * 2 + n * 2)) (B2 := 0) (f := fun bp =>
-      Eeprom.bind (mul16 m "new:mul" w 2) fun a => Eeprom.bind (mul16 m "new:mul" n 2) fun b =>
-      Eeprom.bind (add16 m "new:add" a b) fun e => ret ⟨bp, e⟩) ?_
-  · exact h
-  · intro bp hbp
-    refine (Tri.bind (mul16_tri m hang "new:mul" (by decide) w 2) (B2 := 0) ?_)
-    intro a ha
-    refine (Tri.bind (mul16_tri m hang "new:mul" (by decide) n 2) (B2 := 0) ?_)
-    intro b hb
-    refine (Tri.bind (add16_tri m hang "new:add" (by decide) a b) (B2 := 0) ?_)
-    intro e he
-    refine Tri.ret 0 ⟨⟨hbp.1, he.1⟩, fun hm => ?_⟩
-    simp only [hbp.2 hm, ha.2 hm, hb.2 hm, he.2 hm, and_self]
+  refine Tri.ret 0 ⟨?_, ?_⟩
+  · simp only; omega
+  · simp only [ADDRESS_SPACE_BYTES]; omega
 
-theorem startAt_tri (m : Mode) (hang : Bool) (w n : Nat) :
-    Tri (sites m) hang 0 (fun r => r.WF) (startAt m w n) :=
-  (new_tri m hang w (n / 2)).mono (Nat.le_refl _) fun _ h => h.1
+theorem startAt_tri {K : List String} (m : Mode) (hang : Bool) (w n : Nat) (hw : w < 65536) :
+    Tri K hang 0 (fun r => r.WF) (startAt m w n) :=
+  new_tri m hang w ((n + 1) / 2) hw
 
-theorem skip_tri (m : Mode) (hang : Bool) (r : Range) (hr : r.WF) (k : Nat) :
-    Tri (sites m) hang 0 (fun r' => r'.WF ∧ r'.endp = r.endp) (Range.skip m r k) := by
+theorem skip_tri {K : List String} (m : Mode) (hang : Bool) (r : Range) (hr : r.WF) (k : Nat) :
+    Tri K hang 0 (fun r' => r'.WF ∧ r'.endp = r.endp) (Range.skip m r k) := by
   unfold Range.skip
-  refine (Tri.bind (add16_tri m hang "skip_ahead_bytes:add" (by decide) r.pos k) (B2 := 0) ?_)
-  intro _ _
-  refine (Tri.bind (add16_tri m hang "skip_ahead_bytes:add" (by decide) r.pos k) (B2 := 0) ?_)
-  intro s _
   split
   · exact Tri.fail 0 _ (by decide)
-  · refine (Tri.bind (add16_tri m hang "skip_ahead_bytes:add" (by decide) r.pos k) (B2 := 0) ?_)
-    intro s' hs'
-    exact Tri.ret 0 ⟨⟨hs'.1, hr.2⟩, rfl⟩
+  · refine Tri.ret 0 ⟨⟨?_, hr.2⟩, rfl⟩
+    have := hr.2
+    simp only; omega
 
-theorem readByte_tri (m : Mode) (hang : Bool) (p : Prov) (hcs : 2 ≤ p.cs) (r : Range) (hr : r.WF) :
-    Tri (sites m) hang 2 (fun res => res.1 = p.rd r.pos ∧ res.2.WF ∧ res.2.endp = r.endp)
+theorem readByte_tri {K : List String} (m : Mode) (hang : Bool) (p : Prov) (hcs : 2 ≤ p.cs) (r : Range)
+    (hr : r.WF) :
+    Tri K hang 2 (fun res => res.1 = p.rd r.pos ∧ res.2.WF ∧ res.2.endp = r.endp)
       (Range.readByte m p r) := by
-  unfold Range.readByte clearErrors readChunk
-  refine Tri.call (B := 1) ?_
-  refine Tri.call (B := 0) ?_
-  refine (Tri.bind (add16_tri m hang "read_byte:add" (by decide) r.pos 1) (B2 := 0) ?_)
-  intro np hnp
-  have hget : (chunkAt p (r.pos / 2))[r.pos % 2]? = some (p.rd r.pos) := by
-    unfold chunkAt
-    rw [slice_getElem?, if_pos (by omega)]
-    congr 2; omega
-  rw [hget]
-  exact Tri.ret 0 ⟨rfl, ⟨hnp.1, hr.2⟩, rfl⟩
+  unfold Range.readByte
+  by_cases hend : r.pos ≥ r.endp
+  · rw [if_pos hend]; exact Tri.fail _ _ (by decide)
+  · rw [if_neg hend, wordPos_ok r.pos (by have := hr.2; omega)]
+    unfold clearErrors readChunk
+    refine Tri.call (B := 1) ?_
+    rw [bind_ret]
+    refine Tri.call (B := 0) ?_
+    have hget : (chunkAt p (r.pos / 2))[r.pos % 2]? = some (p.rd r.pos) := by
+      unfold chunkAt
+      rw [slice_getElem?, if_pos (by omega)]
+      congr 2; omega
+    rw [hget]
+    refine Tri.ret 0 ⟨rfl, ⟨?_, hr.2⟩, rfl⟩
+    have := hr.2
+    simp only; omega
 
 theorem read_tri {K : List String} (m : Mode) (hang : Bool) (p : Prov) (hcs : 2 ≤ p.cs) (r : Range) (hr : r.WF)
     (n : Nat) :
@@ -242,9 +216,9 @@ theorem catStep_tri (m : Mode) (hang : Bool) (cat : Nat) (chunk : List Nat) (wa 
       have hne' : ne' < 32 := by simp only [Gen.Eeprom.EMPTY_CATEGORY_LIMIT] at h2; omega
       by_cases h3 : catOf (rd16 chunk) = cat
       · rw [if_pos h3]
-        refine (Tri.bind (new_tri m hang (wa + 2) _) (B2 := 0) ?_)
+        refine (Tri.bind (new_tri m hang (wa + 2) _ (by omega)) (B2 := 0) ?_)
         intro r hr
-        exact Tri.ret 0 (show CatStepPost wa (.done (some r)) from hr.1)
+        exact Tri.ret 0 (show CatStepPost wa (.done (some r)) from hr)
       · rw [if_neg h3]
         by_cases h4 : catOf (rd16 chunk) = Gen.Eeprom.CAT_END
         · rw [if_pos h4]; exact Tri.ret 0 (show CatStepPost wa (.done none) from trivial)
@@ -350,7 +324,7 @@ theorem items_tri (m : Mode) (p : Prov) (_hcs : 4 ≤ p.cs) {hang : Bool} {CB : 
   intro c hcw
   cases c with
   | some r => exact Tri.ret 0 (hcw r rfl)
-  | none => exact (new_tri m hang 0 0).mono (Nat.le_refl _) (fun _ h => h.1)
+  | none => exact new_tri m hang 0 0 (by decide)
 
 /-- The collecting loop: at most `cap + 1` items are fetched, the result never exceeds the capacity. -/
 theorem collectLoop_tri {α : Type} {K : List String} (m : Mode) (hang : Bool) (p : Prov) (hcs : 2 ≤ p.cs)
@@ -451,7 +425,7 @@ theorem fmmus_tri (m : Mode) (p : Prov) (hcs : 4 ≤ p.cs) {hang : Bool} {CB : N
 theorem stationAlias_tri (m : Mode) (hang : Bool) (p : Prov) (hcs : 2 ≤ p.cs) :
     Tri (sites m) hang 3 (fun _ => True) (stationAlias m p) := by
   unfold stationAlias
-  refine (Tri.bind (startAt_tri m hang _ 2) (B2 := 3) ?_).mono (by omega) (fun _ h => h)
+  refine (Tri.bind (startAt_tri m hang _ 2 (by decide)) (B2 := 3) ?_).mono (by omega) (fun _ h => h)
   intro r hr
   refine (Tri.bind (eofToOverrun_tri (readExact_tri m hang p hcs r hr 2)) (B2 := 0) ?_)
   intro _ _
@@ -460,7 +434,7 @@ theorem stationAlias_tri (m : Mode) (hang : Bool) (p : Prov) (hcs : 2 ≤ p.cs) 
 theorem identity_tri (m : Mode) (hang : Bool) (p : Prov) (hcs : 2 ≤ p.cs) :
     Tri (sites m) hang 17 (fun _ => True) (identity m p) := by
   unfold identity
-  refine (Tri.bind (startAt_tri m hang _ 16) (B2 := 17) ?_).mono (by omega) (fun _ h => h)
+  refine (Tri.bind (startAt_tri m hang _ 16 (by decide)) (B2 := 17) ?_).mono (by omega) (fun _ h => h)
   intro r hr
   refine (Tri.bind (eofToOverrun_tri (readExact_tri m hang p hcs r hr 16)) (B2 := 0) ?_)
   intro _ _
@@ -469,7 +443,7 @@ theorem identity_tri (m : Mode) (hang : Bool) (p : Prov) (hcs : 2 ≤ p.cs) :
 theorem mailboxConfig_tri (m : Mode) (hang : Bool) (p : Prov) (hcs : 2 ≤ p.cs) :
     Tri (sites m) hang 11 (fun _ => True) (mailboxConfig m p) := by
   unfold mailboxConfig
-  refine (Tri.bind (startAt_tri m hang _ 10) (B2 := 11) ?_).mono (by omega) (fun _ h => h)
+  refine (Tri.bind (startAt_tri m hang _ 10 (by decide)) (B2 := 11) ?_).mono (by omega) (fun _ h => h)
   intro r hr
   refine (Tri.bind (eofToOverrun_tri (readExact_tri m hang p hcs r hr 10)) (B2 := 0) ?_)
   intro res _
@@ -478,7 +452,7 @@ theorem mailboxConfig_tri (m : Mode) (hang : Bool) (p : Prov) (hcs : 2 ≤ p.cs)
 theorem size_tri (m : Mode) (hang : Bool) (p : Prov) (hcs : 2 ≤ p.cs) :
     Tri (sites m) hang 3 (fun _ => True) (size m p) := by
   unfold size
-  refine (Tri.bind (startAt_tri m hang _ 2) (B2 := 3) ?_).mono (by omega) (fun _ h => h)
+  refine (Tri.bind (startAt_tri m hang _ 2 (by decide)) (B2 := 3) ?_).mono (by omega) (fun _ h => h)
   intro r hr
   refine (Tri.bind (eofToOverrun_tri (readExact_tri m hang p hcs r hr 2)) (B2 := 0) ?_)
   intro res _
